@@ -529,6 +529,14 @@ def witnesses():
     yield "paren_route", B.let([bind("c", lit())], B.paren(B.set([bind("y", ref("c"))]))), ("y",)
     B = G.Builder(); lit, ref, bind, inh = B.lit, B.ref, B.bind, B.inh
     yield "inherit_loop", B.set([B.inhf(["a"], ref("a"))]), ("a",)
+    # cycles that alternate binding -> inherit (src) -> binding (seeded change C10-m2): must end in
+    # ResolutionError in bounded time whatever mixture of hops the cycle is made of
+    B = G.Builder(); lit, ref, bind, inh = B.lit, B.ref, B.bind, B.inh
+    yield "mixed_cycle_rec", B.set([bind("a", ref("b")), B.inhf(["b"], ref("s")),
+                                    bind("s", B.set([bind("b", ref("a"))]))], rec=True), ("a",)
+    B = G.Builder(); lit, ref, bind, inh = B.lit, B.ref, B.bind, B.inh
+    yield "mixed_cycle_let", B.let([bind("a", ref("b")), B.inhf(["b"], ref("s")),
+                                    bind("s", B.set([bind("b", ref("a"))]))], B.set([bind("x", ref("a"))])), ("x",)
     B = G.Builder(); lit, ref, bind, inh = B.lit, B.ref, B.bind, B.inh
     shadow = B.let([bind("a", lit())], B.set([bind("k", B.set([
         bind("a", lit()),
